@@ -104,7 +104,7 @@ def subst(expr, env):
 
 
 PURE_BUILTINS = ('len', 'getattr', 'int', 'str', 'ord', 'chr', 'min', 'max', 'abs', 'isinstance',
-                 'bool', 'tuple', 'repr')
+                 'bool', 'tuple', 'repr', 'dict', 'hasattr')
 
 
 def _has_call(e, extra=()):
@@ -168,7 +168,9 @@ class Walker(object):
 
     def __init__(self, is_sink=None, want_returns=False, want_raises=False, max_paths=MAX_PATHS,
                  inline_limit=400, want_exits=False, pure=(), sink_types=(ast.Call,),
-                 track_attrs=(), trace=False, merge=False):
+                 track_attrs=(), trace=False, merge=False, stmt_sink=None):
+        # stmt_sink(stmt) -> True: the statement itself is recorded in the path trace
+        self.stmt_sink = stmt_sink
         self.trace = trace
         self.merge = merge
         # track_attrs: attribute chains (e.g. 'p.pos') treated like local variables; only sound
@@ -274,6 +276,13 @@ class Walker(object):
 
     def _stmt(self, s, states):
         out = []
+        if self.stmt_sink is not None and self.stmt_sink(s):
+            st2 = []
+            for env, conds in states:
+                env = dict(env)
+                env['#trace'] = env.get('#trace', ()) + ((s, None),)
+                st2.append((env, conds))
+            states = st2
         if isinstance(s, ast.If):
             t_states, f_states = [], []
             for env, conds in states:
@@ -473,6 +482,61 @@ def expand(expr, env, depth=3):
         if not (names & set(m)):
             break
         expr = _Subst(m).visit(clone(expr))
+    return expr
+
+
+_POS_OP = {ast.IsNot: ast.Is, ast.NotEq: ast.Eq, ast.NotIn: ast.In}
+
+
+def canon(a, pol):
+    """canonical (text, polarity) of an atomic fact: negative comparison operators are turned
+    into their positive form with flipped polarity (`x is not None` true == `x is None` false)"""
+    if isinstance(a, ast.Compare) and len(a.ops) == 1 and type(a.ops[0]) in _POS_OP:
+        b = ast.Compare(left=a.left, ops=[_POS_OP[type(a.ops[0])]()], comparators=a.comparators)
+        return unparse(b), (not pol)
+    return unparse(a), pol
+
+
+def inline_simple_methods(expr, methods, selfname='self'):
+    """replace calls self.m(args) by m's returned expression when m's body is a single return
+    (a named predicate extracted from a condition), parameters substituted"""
+    class T(ast.NodeTransformer):
+        def visit_Call(self, n):
+            self.generic_visit(n)
+            if isinstance(n.func, ast.Attribute) and isinstance(n.func.value, ast.Name) and \
+                    n.func.value.id == selfname and n.func.attr in methods and not n.keywords:
+                m = methods[n.func.attr]
+                body = [st for st in m.body if not (isinstance(st, ast.Expr) and isinstance(st.value, ast.Constant))]
+                params = [a.arg for a in m.args.args][1:]
+                if len(body) == 1 and isinstance(body[0], ast.Return) and body[0].value is not None \
+                        and len(params) == len(n.args):
+                    return subst(body[0].value, dict(zip(params, n.args)))
+            return n
+    return T().visit(clone(expr))
+
+
+def facts_of(conds, env=None, methods=None, also=()):
+    """set of canonical (text, polarity) atoms of a list of branch decisions (plus the atoms of
+    the expressions in `also`, taken as true); opaque symbols expanded when env is given, simple
+    predicate methods inlined when `methods` is given"""
+    out = set()
+    items = list(conds) + [(e, True) for e in also]
+    for t, pol in items:
+        if env is not None:
+            t = expand(t, env)
+        if methods:
+            t = inline_simple_methods(t, methods)
+        for a, ap in _atoms(t, pol):
+            out.add(canon(a, ap))
+    return out
+
+
+def resolve(expr, env):
+    """the defining call of an opaque symbol (one level), else the expression itself"""
+    if isinstance(expr, ast.Name):
+        d = env.get('#def', {}).get(expr.id)
+        if isinstance(d, ast.AST):
+            return d
     return expr
 
 
